@@ -4848,6 +4848,8 @@ bool ts_query_cursor_next_capture(
     }
 
     if (capture_list_pool_is_empty(&self->capture_list_pool) && found_unfinished_state) {
+      // This in-progress match is dropped because of the match limit: report it.
+      self->did_exceed_match_limit = true;
       LOG(
         "  abandon state. index:%u, pattern:%u, offset:%u.\n",
         first_unfinished_state_index,
